@@ -2270,7 +2270,12 @@ def recode_cases(jobs):
             r["built"] = "run: TypeError: No method (call site could not be dispatched)"
             r["err"] = 0
         if r["err"] and u["err"]:
-            r["tb"] = "ok" if r["lines"] == u["lines"] and r["lines"] else "bad"
+            # file and line of every frame, down to the raising leaf; a frame the rewriting adds at the *same* line (call sites
+            # in a comprehension iterable become an immediately applied lambda) still points at the original line
+            def squeeze(ls):
+                return [x for j, x in enumerate(ls) if j == 0 or ls[j - 1] != x]
+
+            r["tb"] = "ok" if squeeze(r["lines"]) == squeeze(u["lines"]) and r["lines"] else "bad"
         for k in [k for k in linecache.cache if k.startswith("<ovld:") or k.startswith("<vf:")]:
             del linecache.cache[k]
         out.append({"id": job["id"], "prog": job["prog"], "wrapper": wrapper, "offset": offset, "src": src,
